@@ -23,6 +23,9 @@ def run(ctx):
     ctx.rule("R02.4", "fresh throttle: every comparison that can release or hold a batch reads config.throttle.get() in the same iteration")
     ctx.rule("R02.5", "bounded wait: the recv timeout is the remaining window computed in the same iteration, so a stream of rejected events "
                       "re-enters the loop head with a shrinking bound and leaves through (c)")
+    ctx.rule("R02.7", "CLI plumbing of the window: --debounce is a TimeSpan whose unit-less values are milliseconds (multiplier 1_000_000 ns, "
+                      "applied as unitless * MULTIPLIER nanoseconds; values with a unit go through humantime), and make_config passes exactly that "
+                      "duration to Config::throttle")
     ctx.rule("R02.6", "Priority is declared Low < Normal < High < Urgent with derived PartialOrd/Ord")
     try:
         f, loop, its, nraw = throttle.model(ctx, "R02.2")
@@ -110,6 +113,33 @@ def run(ctx):
         lets = [s for s in loop["e"].get("s", []) if isinstance(s, dict) and s.get("k") == "let" and s["p"].get("n") == "maxtime"]
         ctx.require(len(lets) == 1, "R02.5", "maxtime-per-iteration", "`maxtime` is (re)computed at the head of every iteration", loc,
                     fail="`maxtime` is not recomputed in every iteration of the collect loop")
+    # ---- R02.7
+    try:
+        ea = ctx.facts.find_adt("watchexec_cli::args::events::EventsArgs")
+        fld = [f for f in (ea["variants"][0]["fields"] if ea else []) if f["name"] == "debounce"]
+        ctx.require(bool(fld) and fld[0]["ty"] == "watchexec_cli::args::TimeSpan<1000000>", "R02.7", "debounce-unit", "--debounce is TimeSpan<1_000_000>: unit-less = milliseconds",
+                    detail=fld[0]["ty"] if fld else "", fail="the --debounce argument no longer reads unit-less values as milliseconds (%s)" % (fld[0]["ty"] if fld else "field missing"))
+        fs_ = ctx.anchor_one("R02.7", "TimeSpan::from_str", [f for f in ctx.facts.fns_matching(r"watchexec_cli::args::TimeSpan<.*FromStr>::from_str$")])
+        cls = [c for c in ctx.facts.children(fs_) if c.kind == "closure"]
+        unitful = [c for c in cls if pathx.desc(thir.peel(thir.root(c))).replace("^", "") == "duration::parse_duration(s)"]
+        unitless = []
+        for c in cls:
+            for cd, nd in thir.calls_in(thir.root(c)):
+                if strip_generics(cd).endswith("Duration::from_nanos"):
+                    unitless.append(pathx.desc(nd["a"][0]))
+        okm = unitless in (["unitless Mul constparam"], ["constparam Mul unitless"])
+        ctx.require(len(unitful) == 1 and okm, "R02.7", "timespan-parse", "TimeSpan parses `n` as n * MULTIPLIER ns and anything else with humantime", fs_.loc(fs_.line),
+                    detail="%s / %d" % (unitless, len(unitful)), fail="TimeSpan::from_str no longer computes unit-less values as n * MULTIPLIER nanoseconds (%s)" % unitless)
+        thr = []
+        for f2 in ctx.facts.fns_matching(r"^watchexec_cli::config::make_config"):
+            for cd, nd in thir.calls_in(thir.root(f2)):
+                if strip_generics(cd).endswith("Config::throttle"):
+                    thr.append([pathx.desc(a).replace("^", "") for a in nd["a"]])
+        ctx.require(thr == [["config", "args.events.debounce.0"]], "R02.7", "debounce-to-throttle", "make_config sets the throttle to the parsed --debounce value",
+                    detail=str(thr), fail="the configured debounce does not reach Config::throttle unchanged: %s" % thr)
+    except Skip:
+        pass
+
     # ---- R02.6
     P = "watchexec_events::event::Priority"
     adt = ctx.facts.find_adt(P)
